@@ -25,7 +25,7 @@ import (
 // Per-case state is reset by injReset at the top of every case.
 
 type injPlan struct {
-	FailAt   int64 // 0 = never
+	FailAt   int64 // 0 = never; k > 0: the k-th invocation fails; k < 0: every invocation from the |k|-th on fails
 	Panic    int   // 0 error return, 1 panic(error), 2 panic(string)
 	ErrVal   int   // what the failing invocation returns next to its error (injSetErrVal)
 	calls    atomic.Int64
@@ -93,7 +93,8 @@ func vfFail(q *genql.Query, cur genql.Map, fo *genql.FunctionOptions, args []any
 	inj.mu.Lock()
 	failAt, mode, errVal := inj.FailAt, inj.Panic, inj.ErrVal
 	inj.mu.Unlock()
-	if failAt != 0 && n == failAt {
+	// failAt < 0: every invocation from the |failAt|-th on fails (fault bursts, C10)
+	if failAt != 0 && (n == failAt || (failAt < 0 && n >= -failAt)) {
 		inj.failed.Add(1)
 		switch mode {
 		case 1:
